@@ -59,13 +59,11 @@ impl Default for Options {
 
 pub trait Parse: Sized {
 	fn parse_slice(content: &[u8]) -> Result<(Self, CodeMap), Error> {
-		Self::parse_utf8(utf8_decode::Decoder::new(content.iter().copied()))
-			.map_err(Error::io_into_utf8)
+		Self::parse_utf8(Utf8Chars(content)).map_err(Error::io_into_utf8)
 	}
 
 	fn parse_slice_with(content: &[u8], options: Options) -> Result<(Self, CodeMap), Error> {
-		Self::parse_utf8_with(utf8_decode::Decoder::new(content.iter().copied()), options)
-			.map_err(Error::io_into_utf8)
+		Self::parse_utf8_with(Utf8Chars(content), options).map_err(Error::io_into_utf8)
 	}
 
 	fn parse_str(content: &str) -> Result<(Self, CodeMap), Error> {
@@ -146,6 +144,35 @@ pub trait Parse: Sized {
 	) -> Result<Meta<Self, usize>, Error<E>>
 	where
 		C: Iterator<Item = Result<DecodedChar, E>>;
+}
+
+/// Strict UTF-8 decoder over a byte slice.
+///
+/// Contrarily to `utf8_decode::Decoder`, overlong encodings are rejected
+/// (the decoding is delegated to `std::str::from_utf8`, one character at a
+/// time so that parsing remains a single pass over the input).
+struct Utf8Chars<'a>(&'a [u8]);
+
+impl<'a> Iterator for Utf8Chars<'a> {
+	type Item = io::Result<char>;
+
+	fn next(&mut self) -> Option<Self::Item> {
+		let len = match *self.0.first()? {
+			0x00..=0x7f => 1,
+			0xc0..=0xdf => 2,
+			0xe0..=0xef => 3,
+			_ => 4,
+		};
+
+		let (head, tail) = self.0.split_at(len.min(self.0.len()));
+		match std::str::from_utf8(head) {
+			Ok(s) => {
+				self.0 = tail;
+				s.chars().next().map(Ok)
+			}
+			Err(e) => Some(Err(io::Error::new(io::ErrorKind::InvalidData, e))),
+		}
+	}
 }
 
 /// JSON parser.
